@@ -21,6 +21,11 @@ VERIF_REPO="$WT" VERIF_BUILD="$WT-build" VERIF_OUT="$WT-out" "$V/check" "$PROP" 
 RC=$?
 grep -E "^violation|^VIOLATION|^KNOWN|^h4sim: [0-9]" "$WT-out.log" | head -12
 echo "mutcheck $NAME $PROP: exit $RC"
+# KEEP_REPLAYS=<dir>: keep the replay files of the violations found (named <name>-<file>)
+if [ -n "${KEEP_REPLAYS:-}" ] && [ -d "$WT-out/replays" ]; then
+    mkdir -p "$KEEP_REPLAYS"
+    for f in "$WT-out"/replays/*.plan; do [ -f "$f" ] && cp "$f" "$KEEP_REPLAYS/$NAME-$(basename "$f")"; done
+fi
 git -C /repo worktree remove --force "$WT" >/dev/null 2>&1
 rm -rf "$WT" "$WT-build" "$WT-out" "$WT-out.log"
 exit $RC
